@@ -213,3 +213,54 @@ def own_bytes_ok(direction, obj):
     if len(obj) != len(rb):
         return {"current_fields": cur, "len": len(obj), "len_bytes": len(rb)}
     return None
+
+
+# ---- decode-side histories: decoded objects are modified, then more bytes are decoded -------------
+
+def mutable_parts(obj):
+    """the mutable containers of a decoded message that must not be shared between two decodes"""
+    if type(obj).__name__ == "ReturnArrayMessage":
+        return [obj.values]
+    return []
+
+
+def run_decode_history(pool, rng, n_steps):
+    """pool: [(direction, model-json, bytes)].  Decodes entries (repeats and empty arrays favoured),
+    edits earlier decoded objects in place, decodes again.  Returns (steps, problems, live) where
+    live = [(direction, decoded-from json, updates applied, object)] for the model comparison."""
+    steps, problems, live = [], [], []
+    empties = [p for p in pool if p[1]["k"] == "arr" and not p[1]["v"]]
+    last = None
+    for _ in range(n_steps):
+        r = rng.random()
+        if last is not None and r < 0.3:
+            entry = last                      # the same bytes again
+        elif empties and r < 0.6:
+            entry = rng.choice(empties)       # empty arrays: nothing to unpack
+        else:
+            entry = rng.choice(pool)
+        last = entry
+        direction, mj, raw = entry
+        f = M.deserialize_host_msg if direction == "host" else M.deserialize_return_msg
+        obj = f(bytes(raw))
+        got = msg_to_json(obj)
+        steps.append({"decode": mj})
+        if got != mj:
+            problems.append({"step": len(steps), "what": "decoded message differs from the reference decode",
+                             "bytes": list(raw)[:60], "reference": mj, "got": got})
+        for (_, _, _, prev) in live:
+            if prev is obj or any(a is b for a in mutable_parts(prev) for b in mutable_parts(obj)):
+                problems.append({"step": len(steps), "what": "two decoded messages share a mutable part",
+                                 "reference": mj})
+        rec = [direction, mj, [], obj]
+        live.append(rec)
+        # edit some decoded object in place (the holder of a result fills it in / post-processes it)
+        for _k in range(rng.randrange(0, 3)):
+            tgt = rng.choice(live)
+            cur = msg_to_json(tgt[3])
+            us = [u for u in gen_history(cur, rng, 2) if u["u"] != "obs"][:2]
+            for u in us:
+                apply_real(tgt[3], tgt[1], u, 0)
+                tgt[2].append(u)
+                steps.append({"edit_decoded": live.index(tgt), "update": u})
+    return steps, problems, live
